@@ -11,7 +11,7 @@ from .. import core, crash
 
 PID = "C11"
 LEVEL = "fault_enumeration"
-RULE = ("writers (sweep of 6 designs, NSGA-II 4x3 serial, NSGA-II 6x3 with 3 worker threads, eps-MOEA 4x2) with an SQLite store in "
+RULE = ("writers (sweep of 6 designs, NSGA-II 4x3 serial, NSGA-II 6x3 with 3 worker threads, eps-MOEA 4x2, OMOPSO 4x2, SMPSO 4x2) with an SQLite store in "
         "default thread-safe mode, created before crash points start counting, are killed (a) by os._exit at the k-th Python-level "
         "event: every sqlite3 connect, the moment before/after every execute and commit, objective entry/exit, return of every "
         "synchronisation (quick: every 3rd event of the serial writers, every 5th of the others; thorough: every event); (b) by "
@@ -142,7 +142,7 @@ def cases(ctx):
                 yield "fsize", {"writer": kind, "commit": i, "mode": mode}
     rr = ctx.rng("kill")
     for i in range(ctx.pick(100, 800)):
-        kind = ["nsga2_threads", "nsga2_threads", "epsmoea", "sweep", "nsga2"][i % 5]
+        kind = ["nsga2_threads", "nsga2_threads", "epsmoea", "sweep", "nsga2", "omopso", "smpso"][i % 7]
         yield "sigkill", {"writer": kind, "frac": rr.random(), "i": i}
     if not ctx.quick:
         for kind in ("sweep", "nsga2", "epsmoea"):
